@@ -34,8 +34,14 @@ def chessRules : Rules where
   nullMove := nullMoveOf
   firstLegal := fun g => (legalValues g).head?
 
+/-- what the outside world presents to the k-th poll -/
+structure PollIn where
+  deadline : Bool := false           -- `start_time.elapsed() >= max_time` (only asked when a limit is set)
+  lines : List String := []          -- input lines that reached the channel since the previous poll
+
 structure Cfg where
-  stopAt : Nat → Bool := fun _ => false
+  world : Nat → PollIn := fun _ => {}
+  maxTime : Int := -1                -- −1 = no limit; 0 = the deadline has passed at every poll
   subMask : Option Nat := none       -- extra poll points (verification builds only)
   ttBypass : Bool := false
   trace : Nat := 0                   -- 0 off, 1 digest, 2 full
@@ -54,6 +60,8 @@ structure Env where
   ttHits : Nat := 0
   rep : RepTable
   -- ghost
+  chan : List String := []           -- the input channel (lines not yet read)
+  deferred : List String := []       -- lines handed back to the command loop
   polls : Nat := 0
   pollLog : Array Nat := #[]
   digest : UInt64 := 0xcbf29ce484222325
@@ -92,13 +100,25 @@ def pvAt (e : Env) (row col : Nat) : Move := e.pv.getD (row * 64 + col) Move.nul
 def killer (e : Env) (k ply : Nat) : Option Move := e.killers.getD (k * 64 + ply) none
 def hist (e : Env) (piece to_ : Nat) : Int := e.history.getD (piece * 64 + to_) 0
 
-/-- `poll_input`, with the outside world replaced by `cfg.stopAt` -/
+def firstWordLower (l : String) : String := ((l.splitOn " ").headD "").toLower
+
+/-- `poll_input`: nothing once stopping; else the deadline; else at most one input line -
+    `isready` is answered and the search goes on, `stop` stops, anything else stops and is deferred -/
 def poll (cfg : Cfg) (e : Env) : Env :=
   if e.stopping then e else
-  let stop := cfg.stopAt e.polls
-  let e := { e with polls := e.polls + 1, pollLog := e.pollLog.push e.nodes }
-  let e := e.ev cfg [9, e.nodes.toUInt64, b2w stop] (fun _ => s!"poll {e.nodes} {if stop then 1 else 0}")
-  if stop then { e with stopping := true } else e
+  let inp := cfg.world e.polls
+  let e := { e with polls := e.polls + 1, pollLog := e.pollLog.push e.nodes, chan := e.chan ++ inp.lines }
+  let e := e.ev cfg [9, e.nodes.toUInt64] (fun _ => s!"poll {e.nodes}")
+  if cfg.maxTime != -1 && (cfg.maxTime == 0 || inp.deadline) then { e with stopping := true } else
+  match e.chan with
+  | [] => e
+  | l :: rest =>
+    let l := l.trimAscii.toString
+    let e := { e with chan := rest }
+    match firstWordLower l with
+    | "isready" => { e with out := e.out.push "readyok" }
+    | "stop" => { e with stopping := true }
+    | _ => { e with deferred := e.deferred ++ [l], stopping := true }
 
 /-- `if envir.nodes & INPUT_POLL_INTERVAL == 0 { poll_input() }` (plus the verification-only extra points) -/
 def maybePoll (cfg : Cfg) (e : Env) : Env :=
